@@ -1745,6 +1745,7 @@ lbool CoreSMTSolver::solve_()
 
         // XXX
         status = search((int)nof_conflicts);
+        VERIF_SEARCH("se %p %d", static_cast<void const *>(this), toInt(status));
         nof_conflicts = restartNextLimit(nof_conflicts);
     }
 
